@@ -205,7 +205,7 @@ fn fmt_strategy(max_len: usize) -> BoxedStrategy<FmtCase> {
             let nd = digits.len() as i64;
             let kind = [Kind::Disp, Kind::Lower, Kind::Upper][kind as usize];
             // aim the precision at the tail family's cut half of the time
-            let cut = if nd >= 3 { 1 + (spec.aux as i64 % (nd - 2)) } else { 1 };
+            let cut = gen::tail_cut(&spec) as i64;
             let prec = match (aim, prec) {
                 (0..=4, Some(_)) => match kind {
                     // Display: keep `cut` digits => N = scale - (nd - cut)
